@@ -1,4 +1,6 @@
 import CocoVerif.Props.Lemmas.Img
+import CocoVerif.Props.C16
+import CocoVerif.Props.C17
 
 /-!
 # C18 — decoder output is a complete image file of the advertised size
@@ -37,5 +39,105 @@ theorem hrs_skip_is_drop (w h n : Nat) (bs : List Nat) : hrs w h n bs = hrs w h 
 theorem max_skip_is_drop (o : MaxOpts) (bs : List Nat) :
     CocoVerif.Model.Img.max o bs = CocoVerif.Model.Img.max { o with skip := 0 } (bs.drop o.skip) := by
   simp [CocoVerif.Model.Img.max]
+
+/-! ### complete files for well-formed input: header of the advertised size, then width × height samples -/
+
+theorem maxColour_length (arte a b : Nat) (harte : arte ∈ tableModes) (h0 : arte ≠ 0) (ha : a < 2) (hb : b < 2) :
+    (maxColour arte a b).length = 3 := by
+  have ha' : a = 0 ∨ a = 1 := by omega
+  have hb' : b = 0 ∨ b = 1 := by omega
+  simp [tableModes] at harte
+  rcases harte with rfl | rfl | rfl | rfl | rfl | rfl | rfl <;>
+    first | exact absurd rfl h0 | (rcases ha' with rfl | rfl <;> rcases hb' with rfl | rfl <;> rfl)
+
+theorem pairs_length (arte : Nat) (harte : arte ∈ tableModes) (h0 : arte ≠ 0) :
+    ∀ (n : Nat) (bits : List Nat), bits.length = 2 * n → (∀ b ∈ bits, b < 2) →
+      (renderBits.pairs arte bits).length = 3 * bits.length
+  | 0, bits, hl, _ => by
+      have : bits = [] := List.length_eq_zero_iff.mp (by omega)
+      subst this; rfl
+  | n + 1, a :: b :: r, hl, hlt => by
+      have ha := hlt a (by simp)
+      have hb := hlt b (by simp)
+      have ih := pairs_length arte harte h0 n r (by simp at hl; omega) (fun x hx => hlt x (by simp [hx]))
+      simp [renderBits.pairs, maxColour_length arte a b harte h0 ha hb, ih]
+      omega
+  | n + 1, [], hl, _ => by simp at hl
+  | n + 1, [_], hl, _ => by simp at hl; omega
+
+theorem renderBits_length (arte : Nat) (harte : arte ∈ tableModes) (n : Nat) (bits : List Nat)
+    (hl : bits.length = 2 * n) (hlt : ∀ b ∈ bits, b < 2) :
+    (renderBits arte bits).length = 3 * bits.length := by
+  by_cases h0 : arte = 0
+  · subst h0
+    simp only [renderBits, if_true]
+    clear hl
+    induction bits with
+    | nil => rfl
+    | cons b bs ih =>
+        have hb := hlt b (by simp)
+        have := ih (fun x hx => hlt x (by simp [hx]))
+        have hb' : b = 0 ∨ b = 1 := by omega
+        rcases hb' with rfl | rfl <;> simp [bw, this] <;> omega
+  · simp only [renderBits, h0, if_false]
+    exact pairs_length arte harte h0 n bits hl hlt
+
+/-- MAX: the height is the one the length field dictates, and exactly `3·cols·rows` samples follow -/
+theorem max_complete (arte cols rows x y : Nat) (bits : List Nat)
+    (harte : arte ∈ tableModes) (hcols : cols % 8 = 0) (hc0 : 0 < cols)
+    (hbits : bits.length = cols * rows) (hlt : ∀ b ∈ bits, b < 2) (hsize : cols / 8 * rows < 65536) :
+    ∃ payload, max { arte := arte, cols := cols }
+        ([0, cols / 8 * rows / 256, cols / 8 * rows % 256, x, y] ++ packBits bits)
+      = .ok (ppmHeader "P6" cols rows ++ payload) ∧ payload.length = 3 * cols * rows := by
+  refine ⟨_, C16.max_roundtrip arte cols rows x y bits harte hcols hc0 hbits hlt hsize, ?_⟩
+  obtain ⟨q, hq⟩ : ∃ q, cols = 8 * q := ⟨cols / 8, by omega⟩
+  have hm : cols * rows = 8 * (q * rows) := by rw [hq, Nat.mul_assoc]
+  have he : bits.length = 2 * (4 * (q * rows)) := by rw [hbits, hm]; omega
+  rw [renderBits_length arte harte _ bits he hlt, hbits, Nat.mul_assoc]
+
+/-- Newsroom header: width and height are the two header bytes -/
+theorem max_newsroom_complete (arte k rows : Nat) (bits : List Nat) (harte : arte ∈ tableModes)
+    (hbits : bits.length = 8 * k * rows) (hlt : ∀ b ∈ bits, b < 2) :
+    ∃ payload, max { arte := arte, newsroom := true } ([k, rows] ++ packBits bits)
+      = .ok (ppmHeader "P6" (k * 8) rows ++ payload) ∧ payload.length = 3 * (k * 8) * rows := by
+  refine ⟨_, C16.max_newsroom_roundtrip arte k rows bits harte hbits hlt, ?_⟩
+  have hm : 8 * k * rows = 8 * (k * rows) := by rw [Nat.mul_assoc]
+  have he : bits.length = 2 * (4 * (k * rows)) := by rw [hbits, hm]; omega
+  rw [renderBits_length arte harte _ bits he hlt, hbits, hm]
+  have : k * 8 * rows = 8 * (k * rows) := by rw [Nat.mul_comm k 8, Nat.mul_assoc]
+  rw [Nat.mul_assoc 3, this]
+
+/-- MGE (raw or run-length coded): 320 × 200 -/
+theorem mge_complete (pal px title enc : List Nat) (flag c a : Nat)
+    (hpal : pal.length = 16) (hpx : px.length = 64000) (hlt : ∀ p ∈ px, p < 16)
+    (ht : title.length = 30) (hz : 0 ∈ title) (hcmp : flag ≠ 0 → ∀ p ∈ pal, p < 64)
+    (henc : MgeRle (packNib px) enc) :
+    ∃ payload, mge ([0] ++ pal ++ [flag] ++ [0] ++ title ++ [c, a] ++ enc)
+      = .ok (ppmHeader "P6" 320 200 ++ payload) ∧ payload.length = 3 * 320 * 200 := by
+  refine ⟨_, C17.mge_rle_transparent pal px title enc flag c a hpal hpx hlt ht hz hcmp henc, ?_⟩
+  rw [render_length, hpx]
+
+/-- RAT: 320 × 199 -/
+theorem rat_complete_partial (esc packed border : Nat) (pal px enc : List Nat) (hpk : packed ≠ 0)
+    (hpal : pal.length = 16) (hpx : px.length = 63680) (hlt : ∀ p ∈ px, p < 16)
+    (hlow : ∀ b ∈ packNib px, C17.lowNibbleOK b) (henc : RatEsc esc (packNib px) enc) :
+    ∃ payload, rat (esc :: packed :: border :: (pal ++ enc))
+      = .ok (ppmHeader "P6" 320 199 ++ payload) ∧ payload.length = 3 * 320 * 199 := by
+  refine ⟨_, C17.rat_transparent_partial esc packed border pal px enc hpk hpal hpx hlt hlow henc, ?_⟩
+  rw [render_length, hpx]
+
+/-- VEF 320x200x16 (raw or squashed): every one of the 64000 pixels is a palette entry -/
+theorem vef_complete_16 (pal px : List Nat) (rows : List (List Nat × List Nat))
+    (hpal : pal.length = 16) (hpx : px.length = 64000) (hlt : ∀ p ∈ px, p < 16)
+    (hn : rows.length = 400) (hrows : C17.RowsOK 80 rows) (himg : (rows.map (·.1)).flatten = packNib px) :
+    ∃ out, vef (128 :: 0 :: (pal ++ C17.encRecs rows)) = .ok out ∧ out.width = 320 ∧ out.height = 200
+      ∧ out.bitmap.length = 320 * 200 ∧ ∀ v ∈ out.bitmap, v ∈ pal := by
+  refine ⟨_, C17.vef_squashed_transparent_16 pal px rows hpal hpx hlt hn hrows himg, rfl, rfl, by simp [hpx], ?_⟩
+  intro v hv
+  simp only [List.mem_map] at hv
+  obtain ⟨p, hp, rfl⟩ := hv
+  have := hlt p hp
+  rw [List.getD_eq_getElem?_getD, List.getElem?_eq_getElem (by omega)]
+  simp
 
 end CocoVerif.Props.C18
